@@ -256,10 +256,50 @@ def nearly_closed_large_arcs(ck):
                                     case={'r': str(r), 'rot': rot, 'gap': gap, 'sweep': sw}, expected='|delta| > 180 in the direction of sweep, the far side of the ellipse at t = 1/2', observed=repr(got), driver='placement')
 
 
+def arcs_replaced_inside_paths(ck):
+    """Path.approximate_arcs_with_cubics / _quads: every arc of the path is replaced by curves that start and end at *that arc's* end points, also when the path
+    jumps right before or after the arc (several sub-paths)"""
+    a1 = sp.Arc(4 + 0j, 3 + 2j, 20, False, True, 8 + 3j)
+    a2 = sp.Arc(20 + 5j, 2 + 2j, 0, True, False, 21 + 8j)
+    layouts = [('continuous', [sp.Line(0j, 4 + 0j), a1, sp.Line(8 + 3j, 9 + 9j)]), ('jump before the arc', [sp.Line(0j, 3 + 1j), a1, sp.Line(8 + 3j, 9 + 9j)]),
+               ('jump after the arc', [sp.Line(0j, 4 + 0j), a1, sp.Line(10 + 3j, 9 + 9j)]), ('arc first, then a jump', [a1, sp.Line(12 + 0j, 13 + 1j)]),
+               ('two arcs in separate sub-paths', [sp.Line(0j, 4 + 0j), a1, a2, sp.Line(21 + 8j, 25 + 8j)]), ('arc alone', [a1])]
+    import copy
+    for opname in ('approximate_arcs_with_cubics', 'approximate_arcs_with_quads'):
+        for tag_, segs in layouts:
+            pth = sp.Path(*[copy.deepcopy(s_) for s_ in segs])
+            if not hasattr(pth, opname):
+                continue
+            ck.case(fp=('arcs-in-path', opname, tag_), nontrivial=True)
+            try:
+                getattr(pth, opname)()
+                ends = [(s_.start, s_.end) for s_ in segs]
+                # walk: the non-arc members are kept; every arc becomes a chain from its start to its end
+                i_ = 0
+                ok = not any(isinstance(s_, sp.Arc) for s_ in pth)
+                for s0 in segs:
+                    if not isinstance(s0, sp.Arc):
+                        ok = ok and i_ < len(pth) and pth[i_].start == s0.start and pth[i_].end == s0.end
+                        i_ += 1
+                    else:
+                        ok = ok and i_ < len(pth) and abs(pth[i_].start - s0.start) <= 1e-9
+                        while ok and i_ < len(pth) and abs(pth[i_].end - s0.end) > 1e-9:
+                            ok = ok and i_ + 1 < len(pth) and abs(pth[i_].end - pth[i_ + 1].start) <= 1e-9
+                            i_ += 1
+                        i_ += 1
+                ok = ok and i_ == len(pth)
+            except Exception as e:      # noqa
+                ok, pth = False, e
+            if not ok:
+                ck.disagree(key='Path.%s/does-not-start-and-end-at-the-arcs-end-points' % opname, site='svgpathtools/path.py:Path.' + opname, what='%s: %r' % (tag_, pth), case={'op': opname, 'layout': tag_},
+                            expected='chains from each arc\'s start to its end', observed=repr(pth), driver='placement')
+
+
 def run(ck):
     rnd = random.Random(ck.seed)
     quick = ck.tier == 'quick'
     nearly_closed_large_arcs(ck)
+    arcs_replaced_inside_paths(ck)
     ck.rules.append('case = one lattice arc [radii, rotation, start angle, sweep, centre] (angles in units of 15 degrees, rotations incl. -90 and '
                     '390) walked in 15-degree steps; distinct by the abstract arc; all non-trivial; plus the too-small-radius family')
     ck.assumptions += ['theta/delta compared to 1e-5 degrees (acos near +-1 loses half the digits); centre 1e-7, points 1e-6 relative',
